@@ -64,7 +64,7 @@ func main() {
 func runAll(ctx *Ctx, sel func(*FuncContract) bool, secs int, thorough bool, jobs int, dumpDir string) ([]*FuncResult, []*OblResult) {
 	var frs []*FuncResult
 	for _, fc := range ctx.all {
-		if fc.Kind == "extern" || fc.Trusted || !sel(fc) {
+		if fc.Kind == "extern" || fc.Trusted || fc.IsIface || !sel(fc) {
 			continue
 		}
 		frs = append(frs, ctx.GenVC(fc))
